@@ -17,7 +17,10 @@ transcribes the code:
   code holding the formatted batches of its output in push order; `find(dir, ".fastx")` (`filepath.WalkDir`:
   lexical order of the names `chunk_<code>.fastx`), every file read back with `ReadSequencesFromFile` +
   `Load()` (`panic(err)` when the file cannot be opened) and pushed as one batch, **without** length test
-  (`chunkDisk`).  The file layer (formatting a batch, parsing a file) is a parameter (`FileLayer`);
+  (`chunkDisk`).  `Load()` appends the batches of the reader in the order they *arrive*: the reader cuts the file
+  before its last record and parses the pieces with parallel workers, so the records of a chunk come back in an
+  order that depends on the scheduling (observed: the last record first) — the parameter `ld`, any function
+  returning a permutation of its argument.  The file layer (formatting a batch, parsing a file) is a parameter (`FileLayer`);
   `Lemmas/UniqDisk.lean` instantiates it with the FASTA / JSON-header writer and reader of property C02.
 -/
 namespace ObiVerif.Uniq
@@ -72,22 +75,23 @@ def lexFiles {γ : Type} (files : List (Nat × γ)) : List (Nat × γ) :=
 
 /-- `for order, file := range fileNames { iseq, err := ReadSequencesFromFile(file); if err != nil { panic(err) };
 source, chunk := iseq.Load(); newIter.Push(...) }` -/
-def readFiles {β : Type} (fl : FileLayer β) : List (Nat × List β) → Except String (List (Nat × List Rec))
+def readFiles {β : Type} (fl : FileLayer β) (ld : List Rec → List Rec) :
+    List (Nat × List β) → Except String (List (Nat × List Rec))
   | [] => .ok []
   | f :: t =>
     match fl.read f.2 with
     | none => .error "panic"
     | some l =>
-      match readFiles fl t with
-      | .ok cs => .ok ((f.1, l) :: cs)
+      match readFiles fl ld t with
+      | .ok cs => .ok ((f.1, ld l) :: cs)
       | .error e => .error e
 
 /-- `ISequenceChunkOnDisk`.  `mkdirOK = false`: `os.MkdirTemp` fails (temp directory missing or not writable) —
 the error is returned (`IUniqueSequence` returns it: outcome `err`, nothing is dereplicated). -/
-def chunkDisk {β : Type} (fl : FileLayer β) (mkdirOK : Bool) (code : Rec → Nat) (size : Nat)
-    (batches : List (List Rec)) : Except String (List (Nat × List Rec)) :=
+def chunkDisk {β : Type} (fl : FileLayer β) (ld : List Rec → List Rec) (mkdirOK : Bool) (code : Rec → Nat)
+    (size : Nat) (batches : List (List Rec)) : Except String (List (Nat × List Rec)) :=
   if mkdirOK then
-    readFiles fl (lexFiles ((distribute code size batches).map fun e => (e.1, (e.2.map fl.write).flatten)))
+    readFiles fl ld (lexFiles ((distribute code size batches).map fun e => (e.1, (e.2.map fl.write).flatten)))
   else .error "err"
 
 /-- the file layer the driver executes: a file is the list of its records -/
